@@ -4,6 +4,7 @@ CONSTANT PNames <- QPNames
 CONSTANT MaxList = 2
 CONSTANT Others <- QOthers
 CONSTANT EmitDepth = 0
+CONSTANT EmitOneIn = 1
 VIEW DView
 INVARIANT DWF
 INVARIANT RowsWellShaped
